@@ -71,7 +71,7 @@ def verify(name, suite=True):
         res["demo_with"] = b.returncode
         res["demo_with_tail"] = (b.stdout + b.stderr)[-300:]
         if suite:
-            t = sh(f"cd {wt} && PYTHONPATH={wt}/src timeout 1500 /venv/bin/python -m pytest -q -p no:cacheprovider --timeout=900 src/experimaestro/tests -k 'not token_fail' 2>&1 | tail -3")
+            t = sh(f"cd {wt} && PYTHONPATH={wt}/src timeout 1500 /venv/bin/python -m pytest -q -p no:cacheprovider --timeout=900 src/experimaestro/tests -k 'not restart and not token_fail' 2>&1 | tail -3")
             res["suite_tail"] = t.stdout.strip().splitlines()[-1:]
     finally:
         sh(["git", "-C", "/repo", "worktree", "remove", "--force", str(wt)])
